@@ -61,8 +61,31 @@ static long round_(int m, int t){ mode=m; tq=t; cur_mode=m; atomic_store(&delive
     else fail("DATA_REPLACE: the final merged value was not the last value delivered: last delivered/last merged/target",(long)atomic_load(&lastDelivered),(long)atomic_load(&lastMerged),t); }
   long runs=atomic_load(&handler_runs);
   dispatch_source_cancel(ds); usleep(2000); dispatch_release(ds); if(t) dispatch_release(q); return runs; }
+// self-retriggering chain: the only merges after the first are made by the handler itself, into its own source, while it runs
+// ("merges made while the handler is running are delivered afterwards") - on the default target (NULL), overcommit and plain
+// global queues, serial and concurrent queues. If one is stranded the chain stops.
+static atomic_long ch_left, ch_calls; static atomic_ulong ch_m, ch_d;
+static void ch_record(atomic_ulong *w, unsigned long v){ if(mode==0) atomic_fetch_add(w,v); else if(mode==1) atomic_fetch_or(w,v); else atomic_store(w,v); }
+static void chain_handler(void *c){ (void)c; if (atomic_fetch_add(&inhandler,1)) fail("event handler running on two threads at once (chain): mode/target",mode,tq,0);
+  unsigned long d = dispatch_source_get_data(ds); atomic_fetch_add(&ch_calls,1); if(!d) fail("handler invocation reported zero (chain): mode/target",mode,tq,0);
+  ch_record(&ch_d,d);
+  if(atomic_fetch_sub(&ch_left,1)>1){ unsigned long v = mode==0 ? 1+rnd()%5 : mode==1 ? 1ul<<(rnd()%40) : 1+rnd()%(MAXV-1); ch_record(&ch_m,v); dispatch_source_merge_data(ds,v); }
+  atomic_fetch_sub(&inhandler,1); }
+static long chain_round(int m, int t){ mode=m; tq=10+t; cur_mode=m; int K=40; atomic_store(&ch_left,K); atomic_store(&ch_calls,0); atomic_store(&ch_m,0); atomic_store(&ch_d,0);
+  dispatch_queue_t q = t==0 ? NULL : t==1 ? (dispatch_queue_t)dispatch_get_global_queue(0,2 /* DISPATCH_QUEUE_OVERCOMMIT */) : t==2 ? (dispatch_queue_t)dispatch_get_global_queue(0,0)
+    : t==3 ? dispatch_queue_create("s",NULL) : dispatch_queue_create("c",DISPATCH_QUEUE_CONCURRENT);
+  ds = dispatch_source_create(m==0?DISPATCH_SOURCE_TYPE_DATA_ADD:m==1?DISPATCH_SOURCE_TYPE_DATA_OR:DISPATCH_SOURCE_TYPE_DATA_REPLACE,0,0,q);
+  dispatch_source_set_event_handler_f(ds, chain_handler); dispatch_activate(ds);
+  unsigned long v0 = m==1 ? 1ul<<41 : 7; ch_record(&ch_m,v0); dispatch_source_merge_data(ds,v0);
+  for(int w=0; w<5000 && atomic_load(&ch_left)>0; w++) usleep(1000);
+  usleep(2000);
+  if(atomic_load(&ch_left)>0) fail("a merge made by the handler into its own source while it was running was never delivered (the chain stopped): handler calls/mode/target",atomic_load(&ch_calls),m,t);
+  else if(atomic_load(&ch_d)!=atomic_load(&ch_m)) fail("self-retriggering chain: delivered differs from merged (sum / union / last value): delivered/merged/mode",(long)atomic_load(&ch_d),(long)atomic_load(&ch_m),m);
+  long runs=atomic_load(&ch_calls);
+  dispatch_source_cancel(ds); usleep(2000); dispatch_release(ds); if(t>=3) dispatch_release(q); return runs; }
 int main(int argc, char **argv){ seed = argc>1?strtoull(argv[1],0,0):1; nops = argc>2?atoi(argv[2]):20000;
   evs=calloc(MAXEV,sizeof *evs); was_merged=calloc(MAXV,1); _dispatch_verif_atomic_cb=cb; _dispatch_verif_yield_cb=ycb; long runs=0;
+  for(int m=0;m<3 && !viol;m++) for(int t=0;t<5 && !viol;t++) runs+=chain_round(m,t);
   for(int m=0;m<3 && !viol;m++) for(int t=0;t<3 && !viol;t++) runs+=round_(m,t);
   _dispatch_verif_atomic_cb=0; _dispatch_verif_yield_cb=0;
   if(viol) printf("ORACLE VIOL seed=%llu %s\n",(unsigned long long)seed,vmsg); else printf("ORACLE ok items=%ld events=%lu\n",runs,atomic_load(&nev));
